@@ -13,7 +13,8 @@ WNAMES = ['W_SameNameTwice', 'W_LostLink', 'W_DupFound', 'W_ScanBeyondMapping', 
 
 
 def fam(name, procs, init_slots):
-    return dict(name=name, procs=procs, init=init_slots, maxslots=init_slots + len(procs))
+    # a process may give a record up and allocate another one (repaired F16): one spare slot per process
+    return dict(name=name, procs=procs, init=init_slots, maxslots=init_slots + 2 * len(procs))
 
 
 def families():
@@ -50,7 +51,7 @@ MCBucketOf == ("n1" :> "b1" @@ "n2" :> "b1" @@ "n3" :> "b2")
 
 def mc_cfg(f, spec='Spec', invariants=(), props=(), kill=True, deadlock=False):
     s = ('SPECIFICATION %s\nCONSTANTS\n Procs <- MCProcs\n NameOf <- MCNameOf\n Names <- MCNames\n BucketOf <- MCBucketOf\n'
-         ' Buckets = {"b1", "b2"}\n K = %d\n InitSlots = %d\n MaxSlots = %d\n MaxPages = 8\n MaxTries = 10\n AllowKill = %s\n') % (
+         ' Buckets = {"b1", "b2"}\n K = %d\n InitSlots = %d\n MaxSlots = %d\n MaxPages = 8\n MaxTries = 10\n AllowKill = %s\n FixF16 = TRUE\n') % (
         spec, K, f['init'], f['maxslots'], 'TRUE' if kill else 'FALSE')
     if invariants:
         s += 'INVARIANTS ' + ' '.join(invariants) + '\n'
